@@ -144,6 +144,24 @@ def toGoList (field : String) : List Expr → Option (List Flat)
     | _, _ => none
 end
 
+mutual
+/-- the expression contains a node outside the model's coverage (comprehension macros, bytes constants) -/
+def hasUnmodelled : Expr → Bool
+  | .unmodelled => true
+  | .select e _ => hasUnmodelled e
+  | .call _ args => anyUnmodelled args
+  | .mcall _ t args => hasUnmodelled t || anyUnmodelled args
+  | .list es => anyUnmodelled es
+  | _ => false
+def anyUnmodelled : List Expr → Bool
+  | [] => false
+  | e :: es => hasUnmodelled e || anyUnmodelled es
+end
+
+/-- the model's verdict on an expression it covers entirely: `none` from `toGo` then means that the translator
+    REFUSES it (a function or method without a rendering; `convertCELToGo` returns "unsupported CEL construct") -/
+def refuses (field : String) (e : Expr) : Bool := !hasUnmodelled e && (toGo field e).isNone
+
 /-- `Validate()`: the emitted condition -/
 def condition (field : String) (e : Expr) : Option String := (toGo field e).map fun f => "!(" ++ render f ++ ")"
 
